@@ -15,11 +15,12 @@ import LiquerModel.Handlers.Cache
 import LiquerModel.Handlers.StateTypes
 import LiquerModel.Handlers.Web
 import LiquerModel.Handlers.Recipes
+import LiquerModel.Handlers.Iso
 
 open Liquer
 
 def handlers : List (String → List String → Option String) :=
-  [Handlers.store, Handlers.token, Handlers.paths, Handlers.parseH, Handlers.evalH, Handlers.evalMetaH, Handlers.concH, Handlers.storeLayers, Handlers.cache, Handlers.stateTypes, Handlers.web, Handlers.recipes]
+  [Handlers.store, Handlers.token, Handlers.paths, Handlers.parseH, Handlers.evalH, Handlers.evalMetaH, Handlers.concH, Handlers.storeLayers, Handlers.cache, Handlers.stateTypes, Handlers.web, Handlers.recipes, Handlers.isoH]
 
 def answer (line : String) : String :=
   match (line.trimAscii.toString.splitOn " ").filter (· ≠ "") with
